@@ -37,7 +37,6 @@ def run(chk):
     render_loop(chk, prog, names)
     update_fn(chk, prog, names)
     new_frame(chk, prog)
-    local_bank(chk, prog, names)
     shadow_coherence(chk, prog, names)
     refresh_covers_banks(chk, prog, names)
     beam_relative(chk, prog, names)
@@ -297,85 +296,95 @@ def decide_bool(path, e):
     return None
 
 
+BANK_TABLE = {"Sinclair48K": {0: 0}, "Sinclair128K": {5: 0, 7: 1}}
+
+
 def update_fn(chk, prog, names):
+    """ZXScreen::update(rel, bank, data) for every machine and every RAM bank 0..7 (concrete), symbolic address and byte:
+    the shadow copy written is the one documented for that bank (48K: bank 0 -> copy 0; 128K: 5 -> 0, 7 -> 1), no other
+    bank touches a copy, and the cell index / value are the documented ones.  Whatever helper maps the bank (a method,
+    an associated function of another type, a table) is inlined by the walker."""
+    import re
+    import numpy as np
     SCR = prog.adt_path("rustzx_core", "ZXScreen")
     FB = ("param", "FB", 0)
-    LB = prog.fn_path("rustzx_core", "ZXScreen::<FB>::local_bank")
-    w = Walker(prog, max_paths=5000)
-    w.opaque_paths |= {LB, prog.fn_path("rustzx_core", "ZXAttribute::from_byte")}
-
-    def hook(w_, st, path, a, d, wh):
-        return EffectResult(None, havoc=False)
-    w.effect_hook = hook
-    st = w.new_state()
-    st.store[("h", "scr")] = w.materialise(SymObj("scr", ("adt", SCR, (FB,))), st)
     fn = prog.fn(prog.fn_path("rustzx_core", "ZXScreen::<FB>::update"))
-    addr, bank, data = tm.sym("rel", 16), tm.sym("bank", 64), tm.sym("data", 8)
-    rs = w.run(fn, [Ref(("h", "scr"), (), True), addr, bank, data], genv={"FB": FB}, state=st)
-    key = "T-BITS/ZXScreen::update"
-    if not rs or any(r.outcome not in ("return",) for r in rs):
-        chk.fail(key + "/paths", "paths: %s" % [(r.outcome, r.detail) for r in rs if r.outcome != "return"][:3])
-        return
-    import numpy as np
+    addr, data = tm.sym("rel", 16), tm.sym("data", 8)
     rng = np.arange(65536, dtype=np.uint64)
-    kinds = np.zeros(65536, dtype=np.int8)
-    for r in rs:
-        some = [c for c in r.pc if c[0] == "variant" and c[2] in ("Some", "None")]
-        mask = np.ones(65536, dtype=bool)
-        for c in r.pc:
-            if c[0] in ("eq", "ne") and isinstance(c[1], T) and tm.syms(c[1]) == {"rel"}:
-                v = tm.evaluate(c[1], {"rel": rng})
-                if c[0] == "eq":
-                    mask &= (v == c[2])
+    for m, table in BANK_TABLE.items():
+        got_table = {}
+        for bank in range(8):
+            w = Walker(prog, max_paths=5000)
+            w.opaque_paths |= {prog.fn_path("rustzx_core", "ZXAttribute::from_byte")}
+            w.effect_hook = lambda w_, st_, path, a_, d_, wh_: EffectResult(None, havoc=False)
+            st = w.new_state()
+            scr = w.materialise(SymObj("scr", ("adt", SCR, (FB,))), st)
+            scr = scr.with_field(prog.field_index(SCR, "machine"), cc.machine_value(prog, names, m))
+            st.store[("h", "scr")] = scr
+            rs = w.run(fn, [Ref(("h", "scr"), (), True), addr, K(bank, 64), data], genv={"FB": FB}, state=st)
+            key = "T-BITS/ZXScreen::update"
+            if not rs or any(r.outcome not in ("return",) for r in rs):
+                chk.fail(key + "/paths", "%s bank %d: %s" % (m, bank, [(r.outcome, r.detail) for r in rs if r.outcome != "return"][:3]))
+                continue
+            kinds = np.zeros(65536, dtype=np.int8)
+            for r in rs:
+                mask = np.ones(65536, dtype=bool)
+                for c in r.pc:
+                    if c[0] in ("eq", "ne") and isinstance(c[1], T) and tm.syms(c[1]) == {"rel"}:
+                        v = tm.evaluate(c[1], {"rel": rng})
+                        if c[0] == "eq":
+                            mask &= (v == c[2])
+                        else:
+                            for x in c[2]:
+                                mask &= (v != x)
+                writes = []
+                for oid, val in r.store.items():
+                    if isinstance(oid, tuple) and oid[0] == "h" and oid[1].startswith("scr.banks") and hasattr(val, "writes") and val.writes:
+                        writes.append((oid[1], val.writes))
+                if bank not in table:
+                    chk.check(not writes, key + "/foreign-bank", "%s: update for bank %d, which the screen does not show, still writes %s" % (m, bank, writes))
+                    chk.count("update-paths")
+                    continue
+                if not writes:
+                    kinds[mask] = np.where(kinds[mask] == 0, 3, kinds[mask])
+                    continue
+                if len(writes) != 1 or len(writes[0][1]) != 1:
+                    chk.fail(key + "/writes", "update performs several stores: %s" % (writes,))
+                    continue
+                name, ((idx, val),) = writes[0][0], writes[0][1]
+                mo = re.match(r"scr\.banks\[(\d+)\]", name)
+                if mo:
+                    got_table.setdefault(bank, set()).add(int(mo.group(1)))
                 else:
-                    for x in c[2]:
-                        mask &= (v != x)
-        scr = r.store[("h", "scr")]
-        # which heap objects changed?
-        writes = []
-        for oid, val in r.store.items():
-            if isinstance(oid, tuple) and oid[0] == "h" and oid[1].startswith("scr.banks") and hasattr(val, "writes") and val.writes:
-                writes.append((oid[1], val.writes))
-        is_none = any(c[2] == "None" for c in some)
-        if is_none:
-            chk.check(not writes, key + "/foreign-bank", "update for a bank the screen does not show still writes %s" % writes)
-            continue
-        if not writes:
-            kinds[mask] = np.where(kinds[mask] == 0, 3, kinds[mask])
-            continue
-        if len(writes) != 1 or len(writes[0][1]) != 1:
-            chk.fail(key + "/writes", "update performs several stores: %s" % (writes,))
-            continue
-        name, ((idx, val),) = writes[0][0], writes[0][1]
-        lb = [e for e in r.trace if e.path == LB]
-        local = lb[0].ret if lb else None
-        if ".bitmap." in name:
-            kinds[mask] = 1
-            line = [e for e in r.trace if e.path.endswith("bitmap_line_rel")]
-            want_idx_ok = isinstance(idx, T)
-            chk.check(val is data, key + "/bitmap-data", "bitmap shadow stores %s, not the byte written" % (val,))
-            # index = line*32 + col with the helper functions (themselves decided above) applied to rel
-            wl = tm.zext(tm.binop("or", tm.binop("or", tm.binop("and", tm.binop("lshr", addr, K(5, 16)), K(0xC0, 16)),
-                                                 tm.binop("and", tm.binop("lshr", addr, K(8, 16)), K(7, 16))),
-                                  tm.binop("and", tm.binop("lshr", addr, K(2, 16)), K(0x38, 16))), 64)
-            wi = tm.binop("add", tm.binop("shl", wl, K(5, 64)), tm.zext(tm.binop("and", addr, K(0x1F, 16)), 64))
-            chk.check(isinstance(idx, T) and tm.equiv(idx, wi) is True, key + "/bitmap-index",
-                      "bitmap shadow index is %s; documented line*32+col" % (idx,))
-        elif ".attributes." in name:
-            kinds[mask] = 2
-            fb = [e for e in r.trace if e.path.endswith("ZXAttribute::from_byte")]
-            chk.check(len(fb) == 1 and fb[0].args[0] is data, key + "/attr-data", "attribute shadow is not decoded from the byte written")
-            off = tm.binop("sub", addr, K(0x1800, 16))
-            wi = tm.zext(off, 64)
-            chk.check(isinstance(idx, T) and tm.equiv(idx, wi) is True, key + "/attr-index",
-                      "attribute shadow index is %s; documented row*32+col = rel-0x1800" % (idx,))
-        chk.count("update-paths")
-    # address classes: 0..0x17FF bitmap, 0x1800..0x1AFF attributes, rest nothing
-    want = np.where(rng <= 0x17FF, 1, np.where(rng <= 0x1AFF, 2, 3))
-    bad = np.nonzero((kinds != want) & (kinds != 0) | (kinds == 0))[0]
-    chk.check(len(bad) == 0, key + "/ranges", "update treats %d relative addresses wrongly, e.g. 0x%04X (class %d, documented %d)" % (
-        len(bad), bad[0] if len(bad) else 0, kinds[bad[0]] if len(bad) else 0, want[bad[0]] if len(bad) else 0))
-    chk.floor("update-paths", 2)
+                    chk.undecided_(key + "/copy", "cannot tell which shadow copy %s is" % name)
+                if ".bitmap." in name:
+                    kinds[mask] = 1
+                    chk.check(val is data, key + "/bitmap-data", "bitmap shadow stores %s, not the byte written" % (val,))
+                    wl = tm.zext(tm.binop("or", tm.binop("or", tm.binop("and", tm.binop("lshr", addr, K(5, 16)), K(0xC0, 16)),
+                                                         tm.binop("and", tm.binop("lshr", addr, K(8, 16)), K(7, 16))),
+                                          tm.binop("and", tm.binop("lshr", addr, K(2, 16)), K(0x38, 16))), 64)
+                    wi = tm.binop("add", tm.binop("shl", wl, K(5, 64)), tm.zext(tm.binop("and", addr, K(0x1F, 16)), 64))
+                    chk.check(isinstance(idx, T) and tm.equiv(idx, wi) is True, key + "/bitmap-index",
+                              "bitmap shadow index is %s; documented line*32+col" % (idx,))
+                elif ".attributes." in name:
+                    kinds[mask] = 2
+                    fb = [e for e in r.trace if e.path.endswith("ZXAttribute::from_byte")]
+                    chk.check(len(fb) == 1 and fb[0].args[0] is data, key + "/attr-data", "attribute shadow is not decoded from the byte written")
+                    off = tm.binop("sub", addr, K(0x1800, 16))
+                    wi = tm.zext(off, 64)
+                    chk.check(isinstance(idx, T) and tm.equiv(idx, wi) is True, key + "/attr-index",
+                              "attribute shadow index is %s; documented row*32+col = rel-0x1800" % (idx,))
+                chk.count("update-paths")
+            if bank in table:
+                # address classes: 0..0x17FF bitmap, 0x1800..0x1AFF attributes, rest nothing
+                want = np.where(rng <= 0x17FF, 1, np.where(rng <= 0x1AFF, 2, 3))
+                bad = np.nonzero((kinds != want) & (kinds != 0) | (kinds == 0))[0]
+                chk.check(len(bad) == 0, key + "/ranges", "%s bank %d: update treats %d relative addresses wrongly, e.g. 0x%04X (class %d, documented %d)" % (
+                    m, bank, len(bad), bad[0] if len(bad) else 0, kinds[bad[0]] if len(bad) else 0, want[bad[0]] if len(bad) else 0))
+        got = dict((k, sorted(v)[0]) for k, v in got_table.items() if len(v) == 1)
+        chk.check(got == table and all(len(v) == 1 for v in got_table.values()), "T-TABLE/ZXScreen::local_bank/%s" % m,
+                  "screen banks of %s are kept in shadow copies %s; documented %s" % (m, dict((k, sorted(v)) for k, v in got_table.items()), table))
+    chk.floor("update-paths", 16)
 
 
 def new_frame(chk, prog):
@@ -411,27 +420,6 @@ def new_frame(chk, prog):
                   "front/back buffers are not swapped: %r %r" % (b1, b2))
         chk.count("new-frame-paths")
     chk.check(seen == {True, False}, key + "/cases", "flash toggle cases: %s" % seen)
-
-
-def local_bank(chk, prog, names):
-    SCR = prog.adt_path("rustzx_core", "ZXScreen")
-    FB = ("param", "FB", 0)
-    fn = prog.fn(prog.fn_path("rustzx_core", "ZXScreen::<FB>::local_bank"))
-    want = {"Sinclair48K": {0: 0}, "Sinclair128K": {5: 0, 7: 1}}
-    for m, tab in want.items():
-        got = {}
-        for k in range(8):
-            w = Walker(prog)
-            st = w.new_state()
-            scr = w.materialise(SymObj("scr", ("adt", SCR, (FB,))), st)
-            scr = scr.with_field(prog.field_index(SCR, "machine"), cc.machine_value(prog, names, m))
-            st.store[("h", "scr")] = scr
-            r = one_path(chk, prog, fn, [Ref(("h", "scr"), (), False), K(k, 64)], "T-TABLE/local_bank/paths", genv={"FB": FB}, walker=w, state=st)
-            if r is None:
-                continue
-            if isinstance(r.ret, Agg) and r.ret.variant == 1 and isinstance(r.ret.fields[0], T) and r.ret.fields[0].is_const():
-                got[k] = r.ret.fields[0].val
-        chk.check(got == tab, "T-TABLE/ZXScreen::local_bank/%s" % m, "screen banks of %s map %s; documented %s" % (m, got, tab))
 
 
 def shadow_coherence(chk, prog, names):
